@@ -336,6 +336,9 @@ class Wildcard(PatternQuery):
         if text == "*":
             from whoosh.query import Every
             return Every(self.fieldname, boost=self.boost)
+        if "[" in text:
+            # Character classes are wildcards too
+            return self
         if "*" not in text and "?" not in text:
             # If no wildcard chars, convert to a normal term.
             return Term(self.fieldname, self.text, boost=self.boost)
